@@ -272,6 +272,33 @@ def data_session(col, binpath, vmon, rng, tag, scratch):
             col.inconc("title bar not found after reset")
         elif m.group(3) or abs(float(m.group(1)) - lat) > 0.0006 or abs(float(m.group(2)) - lon) > 0.0006:
             col.add("C18", "C18|reset_does_not_return_to_receiver", f"after view controls {seq[-8:]} and reset the title shows {m.group(0)!r}; the receiver is at ({lat:.3f},{lon:.3f})", dict(inp, view_controls=seq))
+        # the window changes its size (smaller, then larger than at the start): the table is redrawn
+        # with the same data and the title with the same count
+        for (nr, nc) in ((50, 180), (64, 210)):
+            sess.key("F3")
+            sess.p.pump(0.2)
+            sess.p.resize(nr, nc)
+            sess.settle(0.5, 6.0)
+            rows4 = sess.airplanes_rows()
+            col.count("resize_checks")
+            if rows4 is None:
+                sess.p.pump(1.0)
+                rows4 = sess.airplanes_rows()
+            if rows4 is None:
+                if sess.p.alive() and sess.ui_present():
+                    col.add("C18", "C18|airplanes_tab_not_drawn|after_resize", f"after the window was resized to {nr}x{nc} the frame of the UI is on screen but the table of aircraft is not (no key was pressed)", dict(inp, resized_to=[nr, nc]))
+                    return
+                if sess.p.alive():
+                    col.add("C18", "C18|screen_not_redrawn_after_resize", f"after the window was resized to {nr}x{nc} nothing of the UI is on screen", dict(inp, resized_to=[nr, nc]))
+                    return
+                raise Inconclusive("radar gone")
+            col.count("rows_compared", len(sim2["rows"]))
+            if ok and not rows_equal(col, rows4, sim2, "", dict(inp, resized_to=[nr, nc]), "after_resize"):
+                break
+            tc = sess.tab_title_count()
+            if tc != sim2["len"]:
+                col.add("C18", "C18|tab_title_count|after_resize", f"after the resize to {nr}x{nc} the tab title says {tc} aircraft, the tracker holds {sim2['len']}", dict(inp, resized_to=[nr, nc]))
+                break
     except Inconclusive:
         # a session that cannot be completed because radar is gone is a finding, not a shrug
         if sess.p.alive():
